@@ -547,7 +547,12 @@ class Agent(dbus.service.Object):
 
         self.__logger.info('Transfer %d size %d relative to MTU %s',
                            item.transfer_id, total_len, mtu)
-        if mtu is None or total_len < (mtu - 4):
+        # A message cannot declare more than its 20-bit length field holds
+        msg_len_max = 2 ** 20 - 1
+        if mtu is None or mtu - 4 > msg_len_max:
+            mtu = msg_len_max + 4
+
+        if total_len < (mtu - 4):
             # no segmentation
             msg = MessageHead()/BundlePdu(data)
             yield msg
